@@ -255,6 +255,8 @@ func runHistory(v *View, h *History, hi int) []Event {
 	return out
 }
 
+var watchdog = 90 * time.Second
+
 func guarded(fn func()) (out string, detail string) {
 	done := make(chan [2]string, 1)
 	go func() {
@@ -269,7 +271,7 @@ func guarded(fn func()) (out string, detail string) {
 	select {
 	case o := <-done:
 		return o[0], o[1]
-	case <-time.After(60 * time.Second):
+	case <-time.After(watchdog):
 		return "timeout", ""
 	}
 }
